@@ -7,9 +7,11 @@
      Close o  : o.close()  — also what the finaliser does: netcdf.__del__ calls self.close() unconditionally
    Every interleaving of open / close / drop-reference / gc.collect() is a sequence of these (dropping a reference
    has no effect on the table until the finaliser runs, and the finaliser is Close).
-   impl_* = the code: netcdf.close -> Dataset.close -> nc_close(self._grpid) WITHOUT looking at _isopen, the
-            error of a failing nc_close is swallowed into a warning;
-   spec_* = the repaired discipline: close only while this object is open.  No proofs in this file. *)
+   impl_* = the code since the repair C05-close-isopen-guard: netcdf.close returns at once when `not self.isopen()`,
+            otherwise Dataset.close -> nc_close(self._grpid) and _isopen = 0; netcdf.__del__ calls self.close()
+            (before the repair close / __del__ called nc_close on the remembered id unconditionally and could close a
+            slot that had been handed to another object; that model was retired with the fix).
+   The property is a statement about the states impl_run reaches (all_valid / read).  No proofs in this file. *)
 From PNC Require Import Base.Util.
 
 Record obj := Obj { o_ncid : nat; o_file : nat; o_open : bool }.
@@ -51,27 +53,13 @@ Definition impl_step (st : state) (e : prim) : state :=
       match nth_error (objs st) o with
       | None => st
       | Some ob =>
-          if slot_open (o_ncid ob) (tbl st)               (* nc_close succeeds on whatever owns the slot now *)
-          then St (remove (o_ncid ob) (tbl st)) (set_nth (objs st) o (Obj (o_ncid ob) (o_file ob) false))
-          else st                                          (* NC_EBADID -> RuntimeError -> warn(); _isopen untouched *)
-      end
-  end.
-
-Definition spec_step (st : state) (e : prim) : state :=
-  match e with
-  | Open f => do_open st f
-  | Close o =>
-      match nth_error (objs st) o with
-      | None => st
-      | Some ob =>
-          if o_open ob
+          if o_open ob                                     (* `if not self.isopen(): return` *)
           then St (remove (o_ncid ob) (tbl st)) (set_nth (objs st) o (Obj (o_ncid ob) (o_file ob) false))
           else st
       end
   end.
 
 Definition impl_run (h : list prim) : state := fold_left impl_step h st0.
-Definition spec_run (h : list prim) : state := fold_left spec_step h st0.
 
 (* what reading a variable through object o returns: the disk file whose data comes back, or None = "Not a valid ID" *)
 Definition read (st : state) (o : nat) : option nat :=
@@ -83,24 +71,6 @@ Definition read (st : state) (o : nat) : option nat :=
 (* the property on one state: every object the program has not closed reads its own file *)
 Definition all_valid (st : state) : bool :=
   forallb (fun ob => negb (o_open ob) || option_eqb Nat.eqb (lookup (o_ncid ob) (tbl st)) (Some (o_file ob))) (objs st).
-
-(* a close event is harmless when the object is still open, or its slot is free at that moment *)
-Definition harmless (st : state) (e : prim) : bool :=
-  match e with
-  | Open _ => true
-  | Close o =>
-      match nth_error (objs st) o with
-      | None => true
-      | Some ob => o_open ob || negb (slot_open (o_ncid ob) (tbl st))
-      end
-  end.
-
-Fixpoint safe_from (st : state) (h : list prim) : bool :=
-  match h with
-  | [] => true
-  | e :: t => harmless st e && safe_from (impl_step st e) t
-  end.
-Definition safe (h : list prim) : bool := safe_from st0 h.
 
 (* observation after a group of events: for the listed (still referenced) objects, what a read returns *)
 Definition reads (st : state) (os : list nat) : list (option nat) := map (read st) os.
